@@ -34,6 +34,16 @@ class Violation(Exception):
         self.pid, self.what, self.detail = pid, what, detail or {}
 
 
+WANT = [None]
+ALSO = {"C13": ("C10", "C15", "C12"), "C01": ("C17",)}
+
+
+def viol(pid, what, detail=None):
+    """raise only for the property being checked (a check function serves several properties)"""
+    if pid == WANT[0] or pid in ALSO.get(WANT[0], ()):
+        raise Violation(pid, what, detail)
+
+
 COUNT = dict(cases=0, nontrivial=0)
 SAMPLES = []
 
@@ -107,14 +117,14 @@ def check_deme_limit(tier):
                     kept = out[d].individuals
                     case(n > limit, dict(fn="DemeLimit", maximize=mx, fitness=list(fits), limit=limit) if n > limit else None)
                     if any(not any(k is x for x in inds) for k in kept):
-                        raise Violation("C10", "DemeLimit added a candidate", dict(fits=fits, limit=limit))
+                        viol("C10", "DemeLimit added a candidate", dict(fits=fits, limit=limit))
                     if len(kept) != min(limit, n):
-                        raise Violation("C10", "DemeLimit does not keep exactly min(limit, available)", dict(fits=fits, limit=limit, kept=len(kept), maximize=mx))
+                        viol("C10", "DemeLimit does not keep exactly min(limit, available)", dict(fits=fits, limit=limit, kept=len(kept), maximize=mx))
                     dropped = [x for x in inds if not any(x is k for k in kept)]
                     for x in dropped:
                         for k in kept:
                             if better(mx, x.fitness, k.fitness):
-                                raise Violation("C10", "DemeLimit dropped a candidate strictly better than a kept one",
+                                viol("C10", "DemeLimit dropped a candidate strictly better than a kept one",
                                                 dict(fits=fits, limit=limit, maximize=mx, dropped=x.fitness, kept=k.fitness))
 
 
@@ -160,18 +170,18 @@ def check_level_limit(tier):
                                  if n > free and distinct else None)
                             for d in parents:
                                 if any(not any(k is x for x in before[d]) for k in out[d].individuals):
-                                    raise Violation("C10", "LevelLimit added / moved a candidate", dict(fits=fits))
+                                    viol("C10", "LevelLimit added / moved a candidate", dict(fits=fits))
                             if len(kept) > max(free, 0):
-                                raise Violation("C08", "LevelLimit lets through more candidates than there are free slots on the level",
+                                viol("C08", "LevelLimit lets through more candidates than there are free slots on the level",
                                                 dict(fits=fits, per_parent=shape, limit=limit, active_below=n_active, kept=len(kept), maximize=mx))
                             if distinct and len(kept) != min(max(free, 0), n):
-                                raise Violation("C10", "LevelLimit does not fill exactly the free slots although the fitness values are distinct",
+                                viol("C10", "LevelLimit does not fill exactly the free slots although the fitness values are distinct",
                                                 dict(fits=fits, per_parent=shape, limit=limit, active_below=n_active, kept=len(kept), maximize=mx))
                             dropped = [x for x in allinds if not any(x is k for k in kept)]
                             for x in dropped:
                                 for k in kept:
                                     if better(mx, x.fitness, k.fitness):
-                                        raise Violation("C10", "LevelLimit dropped a candidate strictly better (in the problem's direction) than a kept one",
+                                        viol("C10", "LevelLimit dropped a candidate strictly better (in the problem's direction) than a kept one",
                                                         dict(fits=fits, per_parent=shape, limit=limit, active_below=n_active, maximize=mx,
                                                              dropped=x.fitness, kept=k.fitness))
 
@@ -198,10 +208,10 @@ def check_skip_same(tier):
                     differs_all = not any(np.all(np.isclose(s, x.genome)) for s in all_seeds)
                     is_kept = any(x is k for k in kept)
                     if same_parent and is_kept:
-                        raise Violation("C10", "SkipSameSprout let through a candidate numerically equal to a seed already sprouted from the same parent",
+                        viol("C10", "SkipSameSprout let through a candidate numerically equal to a seed already sprouted from the same parent",
                                         dict(candidate=x.genome.tolist()))
                     if differs_all and not is_kept:
-                        raise Violation("C10", "SkipSameSprout rejected a candidate that differs from every existing seed of the target level",
+                        viol("C10", "SkipSameSprout rejected a candidate that differs from every existing seed of the target level",
                                         dict(candidate=x.genome.tolist()))
 
 
@@ -225,15 +235,15 @@ def check_generators(tier):
                 out = gen(tree)
                 case(len(expected) > 0, dict(fn=type(gen).__name__, maximize=mx, levels=[len(lv) for lv in levels], active_non_leaves=len(expected)))
                 if set(map(id, out.keys())) != set(map(id, expected)):
-                    raise Violation("C10", f"{type(gen).__name__} does not propose candidates for exactly the active non-leaf demes",
+                    viol("C10", f"{type(gen).__name__} does not propose candidates for exactly the active non-leaf demes",
                                     dict(keys=[d.id for d in out], expected=[d.id for d in expected]))
                 for d, c in out.items():
                     for x in c.individuals:
                         if not any(x is y for y in d.current_population):
-                            raise Violation("C10", f"{type(gen).__name__} proposed a candidate that is not in the deme's current population", dict(deme=d.id))
+                            viol("C10", f"{type(gen).__name__} proposed a candidate that is not in the deme's current population", dict(deme=d.id))
                     if isinstance(gen, BestPerDeme):
                         if len(c.individuals) != 1 or any(better(mx, y.fitness, c.individuals[0].fitness) for y in d.current_population):
-                            raise Violation("C10", "BestPerDeme does not propose exactly the deme's current best", dict(deme=d.id, maximize=mx))
+                            viol("C10", "BestPerDeme does not propose exactly the deme's current best", dict(deme=d.id, maximize=mx))
 
 
 # ---- C09: FarEnough / NBC_FarEnough -----------------------------------------------------------------------------------------
@@ -262,11 +272,11 @@ def check_far_enough(tier):
             case(bool(considered), dict(fn=type(flt).__name__, threshold=t, siblings=len(sibs)))
             for k in kept:
                 if not any(k is x for x in inds):
-                    raise Violation("C10", f"{type(flt).__name__} added a candidate")
+                    viol("C10", f"{type(flt).__name__} added a candidate")
                 for s in considered:
                     dist = float(np.linalg.norm(k.genome - np.mean([i.genome for i in s.current_population], axis=0)))
                     if not dist > t:
-                        raise Violation("C09", f"{type(flt).__name__} accepted a sprout that is not strictly farther than the threshold from the "
+                        viol("C09", f"{type(flt).__name__} accepted a sprout that is not strictly farther than the threshold from the "
                                         "current centroid of a deme it is configured to consider", dict(distance=dist, threshold=t, kind=kind))
 
 
@@ -322,7 +332,7 @@ def check_nbc(tier):
         uniq_best = sum(1 for f in fits if f == (max(fits) if mx else min(fits))) == 1
         case(n >= 4, dict(fn="NearestBetterClustering", n=n, dim=dim, style=style, maximize=mx, distance_factor=df, truncation=tr))
         if got_idx != want:
-            raise Violation("C15", "nearest-better clustering does not return the individuals its definition prescribes",
+            viol("C15", "nearest-better clustering does not return the individuals its definition prescribes",
                             dict(n=n, dim=dim, style=style, maximize=mx, distance_factor=df, truncation=tr, got=sorted(got_idx), want=sorted(want),
                                  fitness=fits, genomes=[g.tolist() for g in G]))
         if uniq_best and len(set(fits)) == n:
@@ -330,19 +340,19 @@ def check_nbc(tier):
             rng.shuffle(perm)
             got2 = NearestBetterClustering([inds[k] for k in perm], df, tr).cluster()
             if {k for k in range(n) if any(inds[k] is g for g in got2)} != got_idx:
-                raise Violation("C15", "the result depends on the order of the input", dict(n=n, style=style))
+                viol("C15", "the result depends on the order of the input", dict(n=n, style=style))
             shift = np.array([rng.uniform(-3, 3) for _ in range(dim)])
             sc = rng.choice([0.5, 2.0, 10.0])
             inds3 = [Individual((g + shift) * sc, p, f) for g, f in zip(G, fits)]
             got3 = NearestBetterClustering(inds3, df, tr).cluster()
             idx3 = {k for k in range(n) if any(inds3[k] is g for g in got3)}
             if style != "converged" and idx3 != got_idx and _robust(inds, mx, df, tr):
-                raise Violation("C15", "the result changes under translation / uniform scaling of the genomes", dict(n=n, style=style))
+                viol("C15", "the result changes under translation / uniform scaling of the genomes", dict(n=n, style=style))
             pm = mk_problem(not mx)
             inds4 = [Individual(g, pm, -f) for g, f in zip(G, fits)]
             got4 = NearestBetterClustering(inds4, df, tr).cluster()
             if {k for k in range(n) if any(inds4[k] is g for g in got4)} != got_idx:
-                raise Violation("C15", "the result differs between (f, minimise) and (-f, maximise)", dict(n=n, style=style, maximize=mx))
+                viol("C15", "the result differs between (f, minimise) and (-f, maximise)", dict(n=n, style=style, maximize=mx))
 
 
 def _robust(inds, mx, df, tr):
@@ -375,22 +385,22 @@ def check_bounds_fp(tier):
                 inside = lo <= x <= hi
                 case(not inside, dict(fn="apply_bounds", method=method, box=(lo, hi), x=float(x)) if not inside and rng.random() < 0.01 else None)
                 if not (lo <= y <= hi):
-                    raise Violation("C17", "bound repair returned a point outside the box", dict(method=method, box=(lo, hi), x=float(x), result=y))
+                    viol("C17", "bound repair returned a point outside the box", dict(method=method, box=(lo, hi), x=float(x), result=y))
                 if inside and abs(y - x) > 4 * np.spacing(max(abs(lo), abs(hi))):
-                    raise Violation("C17", "bound repair moved a point that was already inside the box", dict(method=method, box=(lo, hi), x=float(x), result=y))
+                    viol("C17", "bound repair moved a point that was already inside the box", dict(method=method, box=(lo, hi), x=float(x), result=y))
                 if not inside:
                     tol = 64 * np.spacing(max(abs(x), abs(lo), abs(hi)))
                     if method == "clip" and y != (lo if x < lo else hi):
-                        raise Violation("C17", "clip did not move to the nearest face", dict(box=(lo, hi), x=float(x), result=y))
+                        viol("C17", "clip did not move to the nearest face", dict(box=(lo, hi), x=float(x), result=y))
                     if method == "toroidal":
                         k = round((x - y) / r)
                         if abs((x - y) - k * r) > tol * max(1, abs(k)) and y not in (lo, hi):
-                            raise Violation("C17", "toroidal result is not congruent to the input modulo the range", dict(box=(lo, hi), x=float(x), result=y))
+                            viol("C17", "toroidal result is not congruent to the input modulo the range", dict(box=(lo, hi), x=float(x), result=y))
                     if method == "reflect":
                         a, c = (y - lo) - (x - lo), (y - lo) + (x - lo)
                         ok = min(abs(a - 2 * r * round(a / (2 * r))), abs(c - 2 * r * round(c / (2 * r)))) <= tol * max(1.0, abs(x - lo) / r)
                         if not ok and y not in (lo, hi):
-                            raise Violation("C17", "reflect result is not congruent to +/- the input modulo twice the range", dict(box=(lo, hi), x=float(x), result=y))
+                            viol("C17", "reflect result is not congruent to +/- the input modulo twice the range", dict(box=(lo, hi), x=float(x), result=y))
 
 
 def check_operators_in_box(tier):
@@ -413,12 +423,12 @@ def check_operators_in_box(tier):
                 bad = (out.genomes < box[:, 0]) | (out.genomes > box[:, 1])
                 if np.any(bad):
                     i, j = np.argwhere(bad)[0]
-                    raise Violation("C01", f"{type(op).__name__} produced a coordinate outside the box (it would be evaluated there)",
+                    viol("C01", f"{type(op).__name__} produced a coordinate outside the box (it would be evaluated there)",
                                     dict(box=(lo, hi), value=float(out.genomes[i, j]), parents=[rows[i][j], rows[i + 1 if i % 2 == 0 and i + 1 < 6 else i - 1][j]]))
             s = LatinHypercube(d=3, seed=trial).random(8)
             g = box[:, 0] + s * (box[:, 1] - box[:, 0])
             if np.any(g < box[:, 0]) or np.any(g > box[:, 1]):
-                raise Violation("C01", "LHS/Sobol affine scaling left the box", dict(box=(lo, hi)))
+                viol("C01", "LHS/Sobol affine scaling left the box", dict(box=(lo, hi)))
 
 
 # ---- C12 / C13 / C02: population-level kernels ------------------------------------------------------------------------------------------
@@ -444,15 +454,15 @@ def check_population(tier, want):
                     case(k < n, None)
                     if want in ("C12", "C13", "C02"):
                         if len(top.fitnesses) != min(k, n):
-                            raise Violation("C12", "topk does not return min(k, n) rows", dict(fits=fits, k=k))
+                            viol("C12", "topk does not return min(k, n) rows", dict(fits=fits, k=k))
                         for g, fv in zip(top.genomes, top.fitnesses):
                             idx = [i for i in range(n) if np.all(G[i] == g)]
                             if not idx or fits[idx[0]] != fv:
-                                raise Violation("C02", "topk separated a genome from its fitness", dict(fits=fits, k=k))
+                                viol("C02", "topk separated a genome from its fitness", dict(fits=fits, k=k))
                         keptv = sorted(top.fitnesses.tolist())
                         allv = sorted(fits, reverse=mx)[: min(k, n)]
                         if sorted(allv) != keptv:
-                            raise Violation("C12" if want != "C13" else "C13", "topk does not keep the best k in the problem's direction", dict(fits=fits, k=k, maximize=mx))
+                            viol("C12" if want != "C13" else "C13", "topk does not keep the best k in the problem's direction", dict(fits=fits, k=k, maximize=mx))
         # engines: elitism / one-to-one replacement / size on random objective tables
         rng = random.Random(17)
         for trial in range(60 if tier == "quick" else 400):
@@ -470,23 +480,23 @@ def check_population(tier, want):
                 res = eng.run(parents)
                 case(True, dict(fn=type(eng).__name__ + ".run", maximize=mx, n=n) if trial == 0 else None)
                 if len(res) != n:
-                    raise Violation("C12", f"{type(eng).__name__}.run changed the population size", dict(n=n, got=len(res)))
+                    viol("C12", f"{type(eng).__name__}.run changed the population size", dict(n=n, got=len(res)))
                 pa = sorted((i.fitness for i in parents), reverse=mx)
                 ra = sorted((i.fitness for i in res), reverse=mx)
                 if better(mx, pa[0], ra[0]):
-                    raise Violation("C12", f"{type(eng).__name__}.run lost the best fitness", dict(maximize=mx, before=pa[0], after=ra[0]))
+                    viol("C12", f"{type(eng).__name__}.run lost the best fitness", dict(maximize=mx, before=pa[0], after=ra[0]))
                 if not isinstance(eng, SEA.__mro__[0]) and type(eng).__name__ in ("DE", "SHADE"):
                     for k, (x, y) in enumerate(zip(pa, ra)):
                         if better(mx, x, y):
-                            raise Violation("C12", f"{type(eng).__name__}.run: the k-th best fitness got worse", dict(k=k, maximize=mx))
+                            viol("C12", f"{type(eng).__name__}.run: the k-th best fitness got worse", dict(k=k, maximize=mx))
                 for ind in res:
                     true = f(ind.genome)
                     if ind.fitness != true and ind.genome.tobytes() not in table:
-                        raise Violation("C02", f"{type(eng).__name__}.run returned an individual whose fitness is not the objective value of its genome",
+                        viol("C02", f"{type(eng).__name__}.run returned an individual whose fitness is not the objective value of its genome",
                                         dict(stored=float(ind.fitness), true=float(true)))
                 for i, p0 in enumerate(parents):
                     if table.get(p0.genome.tobytes()) != p0.fitness:
-                        raise Violation("C02", "an engine changed its parents")
+                        viol("C02", "an engine changed its parents")
         # twin: tournament winners on (f, max) vs (-f, min)
         for trial in range(30):
             n = 6
@@ -500,7 +510,7 @@ def check_population(tier, want):
             b = TournamentSelection(2)(Population(G.copy(), -fits.copy(), fmin))
             case(True, None)
             if want == "C13" and (not np.array_equal(a.fitnesses, -b.fitnesses)):
-                raise Violation("C13", "tournament selection picks different winners on (f, maximize) and (-f, minimize)", dict(fits=fits.tolist()))
+                viol("C13", "tournament selection picks different winners on (f, maximize) and (-f, minimize)", dict(fits=fits.tolist()))
 
 
 CHECKS = {
@@ -524,13 +534,14 @@ def main():
     ap.add_argument("--ignore", default="")
     a = ap.parse_args()
     ignore = [x for x in a.ignore.split(",") if x]
+    WANT[0] = a.pid
     t0 = time.time()
     known = []
     for fn in CHECKS.get(a.pid, []):
         try:
             fn(a.tier)
         except Violation as v:
-            if v.pid == a.pid or (a.pid == "C13" and v.pid in ("C10", "C15", "C12")):
+            if True:
                 w = dict(property=a.pid, what=v.what, detail=v.detail, driver="replay/bounded.py", check=getattr(fn, "__name__", "population"))
                 if any(n in v.what for n in ignore):
                     known.append(v.what)
